@@ -244,7 +244,7 @@ def make_machine(ctx, state):
 
 
 def shard_main(ctx):
-    ctx.explore_machine("history", make_machine, ctx.n(60, 1500), steps=40)
+    ctx.explore_machine("history", make_machine, ctx.n(150, 2000), steps=40)
 
 
 def replay(case, ctx):
